@@ -22,6 +22,7 @@ import os
 import re
 import struct
 import sys
+import time
 
 from vlib import common as C
 
@@ -244,6 +245,37 @@ def tune_tags(case, expected):
             "user_individuals": iv(user, "individuals"), "user_min_individuals": iv(user, "min_individuals")}
 
 
+# --------------------------------------------------------------------------- translators
+
+def translated(mod, out, tag):
+    """Run a translator on the current working tree of vita and (re)write `out`.  The result is a
+    function of the sources (everything the translation unit includes) and of the translator, so it is
+    cached under build/ by the content hash of both: an unchanged tree costs a hash, any edit of vita or
+    of the tools re-runs clang.  Returns (stats, changed w.r.t. the file that was there)."""
+    tools = os.path.join(C.ROOT, "tools")
+    extra = ""
+    for f in (mod.__name__ + ".py", "cxx2lean.py", os.path.join("tu", mod.TU)):
+        extra += open(os.path.join(tools, f)).read()
+    key = C.repo_tree_hash(extra)[:24]
+    wd = os.path.join(C.BUILD, "c06")
+    os.makedirs(wd, exist_ok=True)
+    cache = os.path.join(wd, f"{tag}-{key}.json")
+    if os.path.exists(cache):
+        c = json.load(open(cache))
+    else:
+        res = mod.extract()
+        c = {"txt": mod.render(res), "stats": mod.stats(res) if hasattr(mod, "stats") else {k: len(v) for k, v in res.items()}}
+        tmp = cache + ".%d.tmp" % os.getpid()
+        with open(tmp, "w") as f:
+            json.dump(c, f)
+        os.replace(tmp, cache)
+    old = open(out).read() if os.path.exists(out) else None
+    if old != c["txt"]:
+        with open(out, "w") as f:
+            f.write(c["txt"])
+    return c["stats"], old is not None and old != c["txt"]
+
+
 # --------------------------------------------------------------------------- running
 
 def run_shard(exe, cases, tag):
@@ -287,24 +319,30 @@ def run_shard(exe, cases, tag):
 def run(chk, replay=None):
     rng = C.SplitMix(chk.seed)
     broken = []
+    t0 = time.time()
+    phases = {}
+
+    def lap(name):
+        nonlocal t0
+        phases[name] = round(time.time() - t0, 1)
+        t0 = time.time()
 
     # which parameters do is_valid / tune_parameters touch in the current sources? (clang AST)
     try:
-        tables, changed = translate_tune.emit(os.path.join(C.LEAN, "Vita", "C06", "Gen.lean"))
-        chk.cov["translated"] = {k: len(v) for k, v in tables.items()}
+        stats, changed = translated(translate_tune, os.path.join(C.LEAN, "Vita", "C06", "Gen.lean"), "gen")
+        chk.cov["translated"] = stats
         chk.cov["gen_changed_vs_committed"] = bool(changed)
     except Refuse as e:
         broken.append("tools/translate_tune.py refuses the current sources: %s" % e)
-    # what do evolution::run, summary::clear and the strategy classes say in the current sources?
+    # what do evolution::run, summary::clear, the strategy classes and the tune_parameters say in the
+    # current sources?
     try:
-        evo, changed = translate_evolution.emit(os.path.join(C.LEAN, "Vita", "C06", "GenEvo.lean"))
-        chk.cov["translated_evolution"] = {"skeleton_tokens": sum(len(v) for v in evo["run"].values() if isinstance(v, list)),
-                                           "strategy_effects": sum(len(e) for _, e in evo["fns"]),
-                                           "clear_resets": len(evo["clearSets"])}
+        stats, changed = translated(translate_evolution, os.path.join(C.LEAN, "Vita", "C06", "GenEvo.lean"), "genevo")
+        chk.cov["translated_evolution"] = stats
         chk.cov["genevo_changed_vs_committed"] = bool(changed)
     except Refuse as e:
         broken.append("tools/translate_evolution.py refuses the current sources: %s" % e)
-
+    lap("translate")
     ok, msg = chk.prove(PROP, [PROP, DRIVER])
     drv_ok = os.path.exists(C.driver_path(DRIVER)) and ok
     if not ok:
@@ -312,11 +350,13 @@ def run(chk, replay=None):
         ok2, _ = C.lake_build([DRIVER])
         drv_ok = ok2
 
+    lap("prove")
     C.build_vita("asan")
     with cf.ThreadPoolExecutor(2) as ex:          # the two translation units compile in parallel
         exes = list(ex.map(lambda n: C.build_harness(n, "asan"), [HARNESS_RUN, HARNESS_TUNE]))
     exe_for = lambda case: exes[0] if case.split()[0] in ("comp", "run", "search") else exes[1]
 
+    lap("build")
     # ---- cases -----------------------------------------------------------
     cases = []
     if replay and "case" not in json.load(open(replay)).get("replay", {}):
@@ -342,7 +382,7 @@ def run(chk, replay=None):
     # shards: interleaved so that each gets a similar mix; one harness binary per shard
     groups = [[c for c in cases if exe_for(c) == exes[0]], [c for c in cases if exe_for(c) == exes[1]]]
     shards, shard_exe = [], []
-    for g, e, n in ((groups[0], exes[0], 5), (groups[1], exes[1], 2)):
+    for g, e, n in ((groups[0], exes[0], 5 if chk.tier != "thorough" else 8), (groups[1], exes[1], 2)):
         n = 1 if len(g) < 8 else n
         for k in range(n):
             part = g[k::n]
@@ -360,6 +400,7 @@ def run(chk, replay=None):
     with cf.ThreadPoolExecutor(nshard) as ex:
         results = list(ex.map(work, range(nshard)))
 
+    lap("harness+driver")
     ndis = 0
     prev_state = {}            # (shard, case) -> last_imp of the latest observed summary
     broken_cases = set()
@@ -434,6 +475,8 @@ def run(chk, replay=None):
             if (j * 7919 + ci) % 4001 == 0:
                 chk.sample({"case": case[:200], "request": req[:200], "oracle": oracle,
                             "driver": ans[j][:100] if ans else None})
+    lap("judge")
+    chk.cov["phase_seconds"] = phases
     chk.cov["model_vs_code_disagreements"] = ndis
     chk.cov["cases"] = len(cases)
 
